@@ -26,7 +26,7 @@ pub fn scopes(rep: &Report, checks: Checks) {
     run_structures(rep, "alphabet pass: every leaf value / member name of the alphabets at every position", &alpha, &safe_strategies, &rot, checks, true);
     // D2: name-prefix family
     let pool = ["a", "ab", "abc", "b"];
-    let nt = if quick { named_trees(2, 2, &pool) } else { named_trees(3, 3, &pool) };
+    let nt = named_trees(3, 3, &pool);
     run_structures(rep, "name-prefix family: member names drawn from {a, ab, abc, b} in every sibling-distinct way x all strategies x all selections", &nt, &all_strats, &cheap, checks, true);
     // D3: pairs of special strings in one container
     let pairs = pair_alphabet_trees();
